@@ -313,7 +313,7 @@ theorem C16_sim_changes_only (w : World ℝ) (s : St ℝ) (o : Op ℝ) (id : Nat
       simp only []
       split
       · simp [hs]
-      · by_cases hv : 1 < c ∨ c < 0 <;> simp [hv, hs]
+      · by_cases hv : 1 < c ∨ c < 0 <;> simp [mcConfBad_iff, hv, hs]
   | useMean => simp [keepsSim, step, he, hs]
   | useCustom v e =>
     simp only [keepsSim, step, he]
@@ -346,8 +346,8 @@ theorem C16_rejected_unchanged (w : World ℝ) (s : St ℝ) (o : Op ℝ)
   | setConf c =>
     simp only [step, setConf'] at hr ⊢
     by_cases hv : 1 < c ∨ c < 0
-    · simp [hv]
-    · simp [hv] at hr
+    · simp [mcConfBad_iff, hv]
+    · simp [mcConfBad_iff, hv] at hr
   | setRange r =>
     cases r with
     | none => simp [step] at hr
@@ -365,14 +365,14 @@ theorem C16_rejected_unchanged (w : World ℝ) (s : St ℝ) (o : Op ℝ)
       by_cases hz : Num.isZero c = true
       · simp [hz] at hr
       · by_cases hv : 1 < c ∨ c < 0
-        · simp [hz, hv]
-        · simp [hz, hv] at hr
+        · simp [mcConfBad_iff, hz, hv]
+        · simp [mcConfBad_iff, hz, hv] at hr
   | useMean => simp [step] at hr
   | useCustom v e =>
     simp only [step] at hr ⊢
     by_cases hv : e < 0
-    · simp [hv]
-    · simp [hv] at hr
+    · simp [mcCustomBad_eq, hv]
+    · simp [mcCustomBad_eq, hv] at hr
   | read =>
     simp only [step, evaluate] at hr
     generalize ensure s = t at hr
